@@ -22,6 +22,7 @@ PROPS = {
     "C05": "vp.harness.c05_rules",
     "C06": "vp.harness.c06_serdes",
     "C07": "vp.harness.c07_deser",
+    "C08": "vp.harness.c08_offsets",
     "C11": "vp.harness.c11_xdef",
     "C12": "vp.harness.c12_const",
     "C13": "vp.harness.c13_robust",
